@@ -32,8 +32,7 @@ pub fn uci_struct_roundtrip<S: Src, const SIDE: u8, const KG: u8>(s: &mut S) {
         None => return,
     };
     let p = pos_of(b.raw());
-    let m = any_m(s);
-    vassume!(in_group(m, KG));
+    let m = any_m_g::<S, SIDE, KG>(s);
     vassume!(semilegal_ref(&p, m));
     let mv = mv_of(m);
     let u: uci::Move = mv.into();
